@@ -126,6 +126,34 @@ impl Universe {
         for u in unrolled {
             push(u, &mut types, &mut index);
         }
+        // Heavier hand-shaped families the weight bound excludes: records with a function-typed
+        // field and a data field, alone and as two-alternative unions in both orders (the same
+        // sub-relation is then asked more than once inside one query, with the alternative that
+        // decides it first or second).
+        {
+            let f = |p: Ty, r: Ty| Ty::Fun(Box::new(p), Box::new(r));
+            let funs = vec![f(Ty::Int, Ty::Int), f(Ty::Union(vec![Ty::Int, Ty::Bin]), Ty::Int), Ty::Int];
+            let tags = vec![Ty::Int, Ty::Bin];
+            let mut records = vec![];
+            for a in &funs {
+                for b in &tags {
+                    records.push(Ty::Tuple(1, vec![(1, a.clone()), (2, b.clone())]));
+                }
+            }
+            let mut shaped = records.clone();
+            for (i, a) in records.iter().enumerate() {
+                for (j, b) in records.iter().enumerate() {
+                    if i != j {
+                        shaped.push(Ty::Union(vec![a.clone(), b.clone()]));
+                    }
+                }
+            }
+            for t in shaped {
+                if t.well_formed(false) {
+                    push(t, &mut types, &mut index);
+                }
+            }
+        }
         let n_unrolled = types.len() - n_enumerated;
 
         if dbg { eprintln!("enumerated {:.2}", t0.elapsed().as_secs_f64()); }
